@@ -912,11 +912,86 @@ pub fn run(ctx: &Ctx) -> i32 {
         total.extra.insert(name.to_string(), json!(r.evaluations));
         total.merge(r);
     }
+    // very long tokens: one token of n bytes for n around the span encoding's length limits,
+    // followed by ` 1`; the spans must tile and the token must carry its whole text
+    {
+        let sizes: Vec<usize> = if ctx.quick() { vec![(1 << 25) - 1, 1 << 25, (1 << 25) + 1] } else { vec![(1 << 24) + 1, (1 << 25) - 1, 1 << 25, (1 << 25) + 1, (1 << 26) - 1, 1 << 26, (1 << 26) + 1] };
+        let kinds = ["string", "verbatim", "comment", "whitespace", "unterminated-comment"];
+        let jobs: Vec<(usize, &str)> = sizes.iter().flat_map(|&n| kinds.iter().map(move |&k| (n, k))).collect();
+        let lcfg = util::ForkCfg { threads: ctx.threads.min(6), mem_bytes: 6 << 30, case_timeout_s: 120, died_signature: "C14/abort/long-token".into(), resource_is_violation: false };
+        let r = util::par_forked(&lcfg, jobs.len(), |sh| {
+            let mut rep = Report::new();
+            let (n, kind) = jobs[sh.index];
+            if !sh.begin_case(0, &|| format!("{kind} token of {n} bytes")) {
+                return rep;
+            }
+            let mut input: Vec<u8> = Vec::with_capacity(n + 2);
+            match kind {
+                "string" => { input.push(b'"'); input.resize(n - 1, b'a'); input.push(b'"'); }
+                "verbatim" => { input.extend_from_slice(b"@'"); input.resize(n - 1, b'a'); input.push(b'\''); }
+                "comment" => { input.extend_from_slice(b"/*"); input.resize(n - 2, b'a'); input.extend_from_slice(b"*/"); }
+                "whitespace" => input.resize(n, b' '),
+                _ => { input.extend_from_slice(b"/*"); input.resize(n, b'a'); }
+            }
+            let tail = kind != "unterminated-comment";
+            if tail {
+                input.extend_from_slice(b" 1");
+            }
+            rep.evaluations += 1;
+            rep.states += 1;
+            rep.traces_validated += 1;
+            rep.transitions += 4;
+            let case = json!({"type":"long-token","kind":kind,"bytes_len":n});
+            match util::catch(|| impl_lex(&input, true)) {
+                Err(m) => rep.violation(format!("C14/panic/{}", util::panic_site(&m)), format!("{kind} token of {n} bytes: {m}"), case),
+                Ok(Ok(toks)) => {
+                    rep.outcome("long-token:lexed");
+                    let mut pos = 0usize;
+                    let mut bad = None;
+                    for (k, s, e) in &toks {
+                        if *s != pos || e < s {
+                            bad = Some(format!("token {k:?} spans {s}..{e}, expected to start at {pos}"));
+                            break;
+                        }
+                        pos = *e;
+                    }
+                    if bad.is_none() && pos != input.len() {
+                        bad = Some(format!("tokens end at {pos}, input has {} bytes", input.len()));
+                    }
+                    let first_ok = match (kind, toks.first()) {
+                        ("string", Some((K::Str(v), 0, e))) => *e == n && v.len() == n - 2,
+                        ("verbatim", Some((K::Str(v), 0, e))) => *e == n && v.len() == n - 3,
+                        ("comment", Some((K::Comment, 0, e))) => *e == n,
+                        ("whitespace", Some((K::Ws, 0, e))) => *e == n + 1,
+                        _ => false,
+                    };
+                    if !tail {
+                        bad = Some("an unterminated comment was accepted".into());
+                    } else if bad.is_none() && !first_ok {
+                        bad = Some(format!("first token is {:?}", toks.first().map(|t| (format!("{:?}", t.0).chars().take(20).collect::<String>(), t.1, t.2))));
+                    }
+                    if let Some(b) = bad {
+                        rep.violation("C14/long-token/tiling", format!("{kind} token of {n} bytes: {b}"), case);
+                    }
+                }
+                Ok(Err((variant, s, e))) => {
+                    rep.outcome("long-token:error");
+                    if tail || !(s <= e && e <= input.len()) {
+                        rep.violation("C14/long-token/rejected-or-misplaced-error", format!("{kind} token of {n} bytes: {variant} at {s}..{e}"), case);
+                    }
+                }
+            }
+            rep.distinct(&(kind, n));
+            rep
+        });
+        total.extra.insert("long_tokens".into(), json!(r.evaluations));
+        total.merge(r);
+    }
     util::finish(
         ctx,
         LevelInfo {
             level: "model_checking",
-            rule: "all byte strings up to the length bound over a 54-symbol byte alphabet; all operator clusters of length <=4; all number texts up to the length bound over `019.eE+-_`; every Unicode scalar value in every literal form and comment; every \\uXXXX and border surrogate pairs; all invalid UTF-8 sequences over 19 border bytes; all text blocks of <=3/4 lines over 10 line shapes; pairs/triples of token texts. Model = ref_lex (lexical grammar). distinct+nontrivial = distinct model token-kind sequences".into(),
+            rule: "all byte strings up to the length bound over a 54-symbol byte alphabet; single tokens of 2^25-1 .. 2^26+1 bytes (string, verbatim string, comment, whitespace, unterminated comment); all operator clusters of length <=4; all number texts up to the length bound over `019.eE+-_`; every Unicode scalar value in every literal form and comment; every \\uXXXX and border surrogate pairs; all invalid UTF-8 sequences over 19 border bytes; all text blocks of <=3/4 lines over 10 line shapes; pairs/triples of token texts. Model = ref_lex (lexical grammar). distinct+nontrivial = distinct model token-kind sequences".into(),
             assumptions: vec![
                 "ref_lex implements the Jsonnet lexical grammar (numbers per the 0.22 grammar with digit separators)".into(),
                 "for rejected inputs only rejection and a located span inside the input are compared".into(),
